@@ -11,8 +11,8 @@ import (
 	"time"
 
 	"github.com/256dpi/gomqtt/client"
+	"github.com/256dpi/gomqtt/client/future"
 	"github.com/256dpi/gomqtt/packet"
-	"github.com/256dpi/gomqtt/session"
 	"pgregory.net/rapid"
 
 	"verif/internal/ev"
@@ -49,6 +49,9 @@ type Case struct {
 	Clean  bool   `json:"clean,omitempty"` // clean session: a reconnect discards all handshake state on both sides
 	FailAt int64  `json:"fail_at,omitempty"`
 	After  bool   `json:"after,omitempty"`
+	// SessFailAt: the k-th operation of the client's session store (a wrapper of
+	// the library's MemorySession) fails, counted from the first established connection
+	SessFailAt int64 `json:"sess_fail_at,omitempty"`
 }
 
 type verdict struct{ sig, msg string }
@@ -72,7 +75,7 @@ type runner struct {
 	c     *Case
 	log   *memconn.Log
 	d     *fb.Dialer
-	sess  *session.MemorySession
+	sess  *fb.Session
 	cl    *client.Client
 	link  *fb.Link
 	alive bool
@@ -100,6 +103,8 @@ type runner struct {
 	gateEntered chan struct{}
 	gate        chan struct{}
 	appCloses   int
+	appCalls    int
+	sessBase    int64
 	lost        bool // the broker has lost its session: next CONNACK without session present
 	amnesias    int
 }
@@ -159,6 +164,21 @@ func (r *runner) callback(m *packet.Message, err error) error {
 	return nil
 }
 
+// apiFailed: an API call returned an error; legitimate only when the connection is gone.
+func (r *runner) apiFailed() bool {
+	l := r.link
+	deadline := time.Now().Add(ev.Ceiling())
+	for !l.Broker.EOF && time.Now().Before(deadline) {
+		l.Broker.PumpWait(time.Millisecond)
+	}
+	if l.Broker.EOF {
+		r.died("an API call")
+	} else if r.pending == nil {
+		r.pending = r.fail("api/error-on-live-connection", "a client API call failed although the connection is alive")
+	}
+	return false
+}
+
 // relClose: PUBREL with a slow application that closes the client meanwhile.
 // It returns false when the connection is gone (always, unless the client
 // answered without involving the application).
@@ -193,7 +213,7 @@ func (r *runner) relClose(id int) bool {
 			// answered without a delivery (the client had completed this id before)
 			release()
 			r.st[id] = idle
-			if acc := atomic.LoadInt32(&r.cur[id].accepted); !r.c.Early && acc != 1 && r.pending == nil {
+			if acc := atomic.LoadInt32(&r.cur[id].accepted); !r.c.Early && (acc < 1 || acc > r.maxAcc()) && r.pending == nil {
 				r.pending = r.fail("qos2/not-exactly-once", "the handshake of %s (id %d) was completed with PUBCOMP; the application accepted the message %d times", r.cur[id].tag, id, acc)
 			}
 			return r.pending == nil
@@ -311,6 +331,10 @@ func (r *runner) connect() *verdict {
 			if r.c.FailAt > 0 {
 				l.ClientEnd.SetFail(r.c.FailAt, r.c.After)
 			}
+			r.sessBase = r.sess.Ops()
+			if r.c.SessFailAt > 0 {
+				r.sess.FailAt(r.c.SessFailAt)
+			}
 		}
 		// sender-rule retransmissions after a resume
 		ok := true
@@ -374,6 +398,11 @@ func (r *runner) died(what string) {
 			cause = "fault"
 		}
 	}
+	for _, e := range r.log.Events() {
+		if e.Actor == "session" && strings.Contains(e.Note, "INJECTED-FAILURE") {
+			cause = "fault"
+		}
+	}
 	if cause == "" {
 		// a rejected delivery is the only other reason for the client to close
 		last := ""
@@ -432,6 +461,19 @@ func (r *runner) expect(from int, what string, want func(packet.Generic) bool) (
 		r.pending = r.fail("liveness/no-answer", "neither %s nor the barrier acknowledgement arrived on a live connection", what)
 	}
 	return false, true
+}
+
+// maxAcc is the number of accepted deliveries one QoS 2 handshake may show: 1 -
+// or 2 when the injected fault was a failing DeletePacket (the record of a
+// delivered message could not be removed, so the repeated PUBREL delivers it
+// again; no client can do better with such a store).
+func (r *runner) maxAcc() int32 {
+	for _, e := range r.log.Events() {
+		if e.Actor == "session" && e.Op == "DeletePacket" && strings.Contains(e.Note, "INJECTED-FAILURE") {
+			return 2
+		}
+	}
+	return 1
 }
 
 func (r *runner) newMsg(qos int) *msg {
@@ -494,7 +536,7 @@ func (r *runner) sendRel(id int, n int) bool {
 			switch {
 			case acc == 0:
 				r.pending = r.fail("qos2/completed-without-delivery", "the handshake of %s (id %d) was completed with PUBCOMP but the application never accepted the message", m.tag, id)
-			case acc > 1:
+			case acc > r.maxAcc():
 				r.pending = r.fail("qos2/delivered-more-than-once", "QoS 2 message %s (id %d) was passed to the application and accepted %d times over one handshake", m.tag, id, acc)
 			}
 		}
@@ -531,7 +573,7 @@ func (r *runner) sendQ1(u *q1, dup bool) bool {
 
 func runCase(c *Case) (*verdict, int64, *runner) {
 	log := memconn.NewLog()
-	r := &runner{c: c, log: log, d: fb.NewDialer(log), sess: session.NewMemorySession(), msgs: map[string]*msg{}}
+	r := &runner{c: c, log: log, d: fb.NewDialer(log), sess: fb.NewSession(log), msgs: map[string]*msg{}}
 	defer func() {
 		if r.cl != nil {
 			go r.cl.Close()
@@ -639,6 +681,76 @@ func runCase(c *Case) (*verdict, int64, *runner) {
 				}
 				return true
 			})
+		case "appsub", "appunsub", "apppub":
+			// the application uses the client API meanwhile; the client's own packet
+			// ids (1, 2, 3 ...) coincide with the ids of the inbound handshakes
+			kind := op.Kind
+			r.appCalls++
+			done := false
+			v = step(func() bool {
+				if done {
+					return true
+				}
+				from := len(r.link.Broker.Inbox)
+				var wait func(time.Duration) error
+				var want packet.Type
+				switch kind {
+				case "appsub":
+					f, err := r.cl.Subscribe("c10/app", 0)
+					if err != nil {
+						return r.apiFailed()
+					}
+					wait, want = f.Wait, packet.SUBSCRIBE
+				case "appunsub":
+					f, err := r.cl.Unsubscribe("c10/app")
+					if err != nil {
+						return r.apiFailed()
+					}
+					wait, want = f.Wait, packet.UNSUBSCRIBE
+				default:
+					f, err := r.cl.Publish("c10/out", []byte("out"), 1, false)
+					if err != nil {
+						return r.apiFailed()
+					}
+					wait, want = f.Wait, packet.PUBLISH
+				}
+				i := r.link.Broker.WaitFor(from, func(g packet.Generic) bool {
+					if x, ok := g.(*packet.Publish); ok && x.Dup {
+						// an earlier publish of the application, re-sent from the session after a reconnect
+						_ = r.link.Broker.Send(&packet.Puback{ID: x.ID})
+						return false
+					}
+					return g.Type() == want
+				}, ev.Ceiling())
+				if i < 0 {
+					if r.link.Broker.EOF {
+						r.died("the application's " + kind)
+						return false
+					}
+					if r.pending == nil {
+						r.pending = r.fail("api/request-not-sent", "the application's %s did not reach the broker on a live connection", kind)
+					}
+					return false
+				}
+				id, _ := packet.GetID(r.link.Broker.Inbox[i])
+				switch want {
+				case packet.SUBSCRIBE:
+					_ = r.link.Broker.Send(&packet.Suback{ID: id, ReturnCodes: []packet.QOS{0}})
+				case packet.UNSUBSCRIBE:
+					_ = r.link.Broker.Send(&packet.Unsuback{ID: id})
+				default:
+					_ = r.link.Broker.Send(&packet.Puback{ID: id})
+				}
+				done = true
+				if err := wait(ev.Ceiling()); err != nil && !r.link.Broker.EOF && r.pending == nil {
+					if err == future.ErrTimeout {
+						r.pending = r.fail("api/future-unresolved", "the broker acknowledged the application's %s (id %d), its future did not complete", kind, id)
+					}
+				}
+				// a barrier: the acknowledgement has been processed
+				_, alive := r.expect(len(r.link.Broker.Inbox), "the barrier", func(packet.Generic) bool { return false })
+				return alive
+			})
 		case "drop":
 			if r.alive {
 				r.link.Broker.Drop()
@@ -720,12 +832,12 @@ func runCase(c *Case) (*verdict, int64, *runner) {
 	r.mmu.Unlock()
 	for _, m := range all {
 		if m.forgiven {
-			if m.qos == 2 && !c.Early && atomic.LoadInt32(&m.accepted) > 1 {
+			if m.qos == 2 && !c.Early && atomic.LoadInt32(&m.accepted) > r.maxAcc() {
 				return r.fail("qos2/not-exactly-once", "QoS 2 message %s was accepted by the application %d times", m.tag, m.accepted), 0, r
 			}
 			continue
 		}
-		if m.qos == 2 && !c.Early && atomic.LoadInt32(&m.accepted) != 1 {
+		if acc := atomic.LoadInt32(&m.accepted); m.qos == 2 && !c.Early && (acc < 1 || acc > r.maxAcc()) {
 			return r.fail("qos2/not-exactly-once", "QoS 2 message %s was accepted by the application %d times in total", m.tag, m.accepted), 0, r
 		}
 		if m.qos == 1 && atomic.LoadInt32(&m.accepted) == 0 {
@@ -743,7 +855,7 @@ func genCase(rt *rapid.T) *Case {
 	c := &Case{Early: rapid.IntRange(0, 4).Draw(rt, "early") == 0, Clean: rapid.IntRange(0, 2).Draw(rt, "clean") == 0}
 	n := rapid.IntRange(1, 10).Draw(rt, "n")
 	for i := 0; i < n; i++ {
-		k := rapid.SampledFrom([]string{"pub", "pub", "pub", "rel", "rel", "rel", "rel2", "pub1", "pub0", "drop", "relclose", "amnesia"}).Draw(rt, "kind")
+		k := rapid.SampledFrom([]string{"pub", "pub", "pub", "rel", "rel", "rel", "rel2", "pub1", "pub0", "drop", "relclose", "amnesia", "appsub", "appunsub", "apppub"}).Draw(rt, "kind")
 		c.Ops = append(c.Ops, Op{Kind: k, ID: rapid.IntRange(1, 3).Draw(rt, "id")})
 	}
 	if rapid.Bool().Draw(rt, "rejecting") {
@@ -761,11 +873,11 @@ func genCase(rt *rapid.T) *Case {
 
 func TestC10(t *testing.T) {
 	run := ev.Start("C10", "fault_enumeration")
-	run.Rule("fake-broker scripts of 1-10 steps over {QoS 2 PUBLISH on ids 1-3 (fresh, or the unanswered one again with DUP), PUBREL (also repeated while unanswered, or twice back to back), fresh QoS 1 / QoS 0 messages, drop + resume with the same session, PUBREL to a slow application that calls Client.Close() from another goroutine while the callback is still running and resumes with a new client as soon as Close has returned, the broker losing its session (CONNACK without session present, open handshakes forgotten, packet ids reused for new messages while the client still stores the old ones)}, interpreted against the sender state so that the broker always obeys the MQTT sender rules (after every resume it retransmits PUBLISH dup / PUBREL as a correct broker would); application verdicts (accept / reject) drawn per callback invocation; both callback modes; clean session on and off (with a clean session a reconnect discards the open handshakes on both sides). Every script runs fault free and then once per (operation k, before/after) for EVERY send and receive on the client's connection(s). Oracle = the sender-side handshake model: every PUBLISH answered by PUBREC/PUBACK and every PUBREL by PUBCOMP (a QoS 1 barrier behind the packet makes a missing answer definite), per completed handshake exactly one accepted delivery (default mode), no acknowledgement after a rejected delivery and the connection closed, nothing delivered zero times in the end. non-trivial = a retransmission, a repeated PUBREL, a rejected delivery or a fault while a handshake is open; distinct by (script, fault)")
+	run.Rule("fake-broker scripts of 1-10 steps over {QoS 2 PUBLISH on ids 1-3 (fresh, or the unanswered one again with DUP), PUBREL (also repeated while unanswered, or twice back to back), fresh QoS 1 / QoS 0 messages, drop + resume with the same session, PUBREL to a slow application that calls Client.Close() from another goroutine while the callback is still running and resumes with a new client as soon as Close has returned, the broker losing its session (CONNACK without session present, open handshakes forgotten, packet ids reused for new messages while the client still stores the old ones), the application's own Subscribe / Unsubscribe / QoS 1 Publish in between (answered by the fake broker; the client's packet ids coincide with the ids of the inbound handshakes)}, interpreted against the sender state so that the broker always obeys the MQTT sender rules (after every resume it retransmits PUBLISH dup / PUBREL as a correct broker would); application verdicts (accept / reject) drawn per callback invocation; both callback modes; clean session on and off (with a clean session a reconnect discards the open handshakes on both sides). Every script runs fault free and then once per (operation k, before/after) for EVERY send and receive on the client's connection(s), and once per session operation k failing (the client's session is a fault-injecting wrapper of the library's MemorySession). Oracle = the sender-side handshake model: every PUBLISH answered by PUBREC/PUBACK and every PUBREL by PUBCOMP (a QoS 1 barrier behind the packet makes a missing answer definite), per completed handshake exactly one accepted delivery (default mode), no acknowledgement after a rejected delivery and the connection closed, nothing delivered zero times in the end. non-trivial = a retransmission, a repeated PUBREL, a rejected delivery or a fault while a handshake is open; distinct by (script, fault)")
 	run.Assume("early callback mode (AlwaysAnnounceOnPublish) documents redelivery: only the acknowledgement clauses are judged there")
 	defer run.Finish(t)
 
-	faultRuns := 0
+	faultRuns, sessFaultRuns := 0, 0
 	one := func(c *Case) *verdict {
 		run.Eval(1)
 		run.Inflight(c)
@@ -796,6 +908,9 @@ func TestC10(t *testing.T) {
 		if r.amnesias > 0 {
 			run.Class("broker-lost-session")
 		}
+		if r.appCalls > 0 {
+			run.Class("application-api-calls")
+		}
 		if v != nil {
 			report(v, c)
 			return
@@ -810,6 +925,14 @@ func TestC10(t *testing.T) {
 				}
 			}
 		}
+		for k := int64(1); k <= r.sess.Ops()-r.sessBase; k++ {
+			fc := &Case{Ops: c.Ops, Reject: c.Reject, Early: c.Early, Clean: c.Clean, SessFailAt: k}
+			sessFaultRuns++
+			if fv := one(fc); fv != nil {
+				report(fv, fc)
+				return
+			}
+		}
 	}
 	fixed := []*Case{
 		{Ops: []Op{{"pub", 1}, {"rel2", 1}}},
@@ -819,6 +942,7 @@ func TestC10(t *testing.T) {
 		{Ops: []Op{{"pub", 3}, {"drop", 0}, {"pub", 3}, {"rel", 3}}, Early: true},
 		{Ops: []Op{{"pub", 1}, {"relclose", 1}, {"pub", 1}, {"rel", 1}}},
 		{Ops: []Op{{"pub", 1}, {"amnesia", 0}, {"pub", 1}, {"rel", 1}}},
+		{Ops: []Op{{"pub", 1}, {"appunsub", 0}, {"rel", 1}, {"pub", 2}, {"appsub", 0}, {"apppub", 0}, {"rel", 2}}},
 		{Ops: []Op{{"pub", 1}, {"pub", 2}, {"rel", 2}, {"amnesia", 0}, {"pub", 2}, {"pub", 1}, {"rel", 1}, {"rel", 2}}, Early: true},
 		{Ops: []Op{{"pub", 2}, {"pub", 1}, {"relclose", 2}, {"relclose", 1}, {"pub1", 0}}},
 	}
@@ -840,6 +964,7 @@ func TestC10(t *testing.T) {
 		})
 	})
 	run.Set("fault_positions_enumerated", faultRuns)
+	run.Set("session_fault_positions_enumerated", sessFaultRuns)
 }
 
 func TestReplay(t *testing.T) {
